@@ -41,7 +41,7 @@ for d in sorted(glob.glob(os.path.join(HERE, "seeded", "*"))):
     except Exception:
         continue
     c = m.get("confirmed_by_lead", {})
-    caught = ", ".join(x.replace(":exit1", "").replace(":", " ") for x in c.get("caught_by", [])) or ("n/a: neutralised by a later fix, see meta.json" if m.get("obsolete_on_head") else "**missed**")
+    caught = ", ".join(x.replace(":exit1", "").replace(":", " ") for x in c.get("caught_by", [])) or ("n/a: neutralised by a later fix, see meta.json" if m.get("obsolete_on_head") else ("n/a: outside the property's statement (" + str(m.get("out_of_scope"))[:160] + ")" if m.get("out_of_scope") else "**missed**"))
     needs = m.get("needs", "")
     if isinstance(needs, list):
         needs = "; ".join(map(str, needs))
